@@ -151,6 +151,10 @@ def install(ctx):
 
 
 def gen_case(rng, tier, ctx, i):
+    if rng.random() < 0.025:
+        rec = common.deep_chain(rng, rng.randint(34, 46))        # very deep nesting
+        ctx.count("count:deep-models")
+        return {"recipe": rec}
     if rng.random() < 0.1:
         from . import confgen
         rec = confgen.gen_config(rng)
